@@ -221,6 +221,8 @@ class Harness:
                     last = getattr(tr, "vt_last", None) or {}
                     oc = last.get("outcome", "")
                     session_ending = oc.startswith("raised:") and oc != "raised:ProcessorError"
+                    if oc == "raised:UnhandledCommand" and (last.get("action") or [None, None, None])[2:3] != ["unknown-cmd"]:
+                        session_ending = False   # e.g. "expects out of alignment": every reply had been read
                     if last.get("hard_signal") or session_ending or not last:
                         ctx.count("failed_probe_after_session_ending_event")
                         continue
@@ -357,7 +359,21 @@ def run(ctx):
     h = Harness(ctx)
     h.shapes = set()
     n = ctx.budget(10, 60)
+    bad = BAD_ECLASS[0]
+    directed = [
+        # a batch whose FIRST reply is the failing one, consumed synchronously, then further requests
+        [["preload", [bad, "g1", "g3"], False], ["alive"], ["metadata", "cat/ok1-1"], ["metadata", "cat/ok2-1"]],
+        # failing reply in the middle of an asynchronous batch, consumed by the next request
+        [["preload", ["g1", bad, "g3"], True], ["metadata", "cat/ok2-1"], ["alive"], ["metadata", "cat/ok1-1"]],
+        [["preload", ["g3", bad], True], ["preload", ["g1"], False], ["env", "cat/ok1-1"], ["clear"], ["metadata", "cat/ok2-1"]],
+        [["phase", "pretend", "unknown-cmd", False], ["metadata", "cat/ok1-1"], ["phase", "pretend", "helper-twice", True], ["alive"]],
+        [["metadata", "cat/multiline-1"], ["alive"], ["metadata", "cat/ok1-1"], ["phase", "pretend", "stderr-multiline-fail", False], ["alive"]],
+    ]
     try:
+        for i, script in enumerate(directed):
+            if i % ctx.nshards == ctx.shard % len(directed) or not ctx.quick:
+                session(ctx, h, actions=[list(a) for a in script])
+                ctx.count("directed_sessions")
         for _ in range(n):
             if ctx.out_of_time(70):
                 break
